@@ -59,7 +59,8 @@ package core
 //@ pure func keyRow(f *AggregatedBloomFilter, key []byte, i mathint) bool = forall j int :: 0 <= j && j < len(locs(key)) ==> bit(f.bitmap[locs(key)[j] % 8192], i)
 
 // The result is the UNION over the alternative keys (a block matching any alternative stays a
-// candidate); with no keys every block is a candidate.
+// candidate); with no keys every block is a candidate. The rows are those the filter holds at entry
+// (old(...)): the frame says the call changes nothing but *out, so they are also the rows afterwards.
 //@ func (*AggregatedBloomFilter).BlocksForKeysInto
 //@   props C09
 //@   arith int
@@ -67,15 +68,15 @@ package core
 //@   requires out != nil ==> (forall r int :: 0 <= r && r < 8192 ==> &f.bitmap[r] != out)
 //@   modifies *out
 //@   loop 1: invariant range: -1 <= rangeindex && rangeindex < len(keys)
-//@   loop 1: invariant union_only: forall i mathint :: 0 <= i && i < 8192 && bit(*out, i) ==> (exists kk int :: 0 <= kk && kk <= rangeindex && keyRow(f, keys[kk], i))
-//@   loop 1: invariant union_all: forall i mathint, kk int :: 0 <= i && i < 8192 && 0 <= kk && kk <= rangeindex && keyRow(f, keys[kk], i) ==> bit(*out, i)
+//@   loop 1: invariant union_only: forall i mathint :: 0 <= i && i < 8192 && bit(*out, i) ==> (exists kk int :: 0 <= kk && kk <= rangeindex && old(keyRow(f, keys[kk], i)))
+//@   loop 1: invariant union_all: forall i mathint, kk int :: 0 <= i && i < 8192 && 0 <= kk && kk <= rangeindex && old(keyRow(f, keys[kk], i)) ==> bit(*out, i)
 //@   loop 1: invariant lens: blen(*out) == 8192 && blen(*innerMatches) == 8192 && innerMatches != nil && innerMatches != out && fresh(innerMatches)
 //@   loop 2: invariant range: -1 <= rangeindex && rangeindex < len(rawIndices)
-//@   loop 2: invariant inter: forall i mathint :: 0 <= i && i < 8192 ==> (bit(*innerMatches, i) <==> (forall j int :: 0 <= j && j <= rangeindex ==> bit(f.bitmap[rawIndices[j] % 8192], i)))
+//@   loop 2: invariant inter: forall i mathint :: 0 <= i && i < 8192 ==> (bit(*innerMatches, i) <==> (forall j int :: 0 <= j && j <= rangeindex ==> old(bit(f.bitmap[rawIndices[j] % 8192], i))))
 //@   loop 2: invariant lens: blen(*out) == 8192 && blen(*innerMatches) == 8192
-//@   callsite InPlaceUnion@*: inner_is_row: forall i mathint :: 0 <= i && i < 8192 ==> (bit(*compare, i) <==> keyRow(f, key, i))
+//@   callsite InPlaceUnion@*: inner_is_row: forall i mathint :: 0 <= i && i < 8192 ==> (bit(*compare, i) <==> old(keyRow(f, key, i)))
 //@   ensures all_when_no_keys: result == nil && len(keys) == 0 ==> (forall i mathint :: 0 <= i && i < 8192 ==> bit(*out, i))
-//@   ensures union: result == nil && len(keys) > 0 ==> (forall i mathint :: 0 <= i && i < 8192 ==> (bit(*out, i) <==> (exists kk int :: 0 <= kk && kk < len(keys) && keyRow(f, keys[kk], i))))
+//@   ensures union: result == nil && len(keys) > 0 ==> (forall i mathint :: 0 <= i && i < 8192 ==> (bit(*out, i) <==> (exists kk int :: 0 <= kk && kk < len(keys) && old(keyRow(f, keys[kk], i)))))
 
 // ---- extractors over the block blob: defined (no panic) for every well-formed blob, including
 // the empty block and blocks without receipts; a (block, index) lookup outside the block is
